@@ -233,6 +233,7 @@ package kmipserver
 //@   ensures len(exec.middlewares) == 0 ==> r0 != nil
 //@   ensures len(exec.middlewares) == 0 ==> coreCalls == old(coreCalls)+1 && coreMsg == req && typeis(ctxvalue(coreCtx, ctxBatch), *batchData) && isnew(holder(coreCtx)) && corePlaceholderAtEntry == ""
 //@   ensures len(exec.middlewares) == 0 ==> ctxvalue(coreCtx, ctxConn) == ctxvalue(ctx, ctxConn)
+//@   ensures len(exec.middlewares) == 0 && typeis(ctxvalue(ctx, ctxBatch), *batchData) && holder(ctx) != nil && !isnew(holder(ctx)) ==> holder(ctx).idPlaceholder == old(holder(ctx).idPlaceholder)
 //@   ensures 0 < len(exec.middlewares) ==> mwCalls == old(mwCalls)+1 && mwMsg == req && mwSelf == exec.middlewares[0] && typeis(ctxvalue(mwCtx, ctxBatch), *batchData) && isnew(holder(mwCtx))
 //@   ensures 0 < len(exec.middlewares) ==> isclosure(mwNext, "(*BatchExecutor).nextAt$1") && capt(mwNext, "i") == 1 && capt(mwNext, "exec") == exec
 //@   ghostmod mwCalls, mwSelf, mwNext, mwCtx, mwMsg, mwRet, mwErr, coreCalls, coreCtx, coreMsg, coreRet, coreErr, biCalls, biSelf, biNext, biCtx, biItem, biRet, biErr, itemCalls, itemCtx, itemItem, itemRet, itemErr, handlerCalls, handlerCtx, corePlaceholderAtEntry, ewmCalls, ewmCtx
